@@ -377,6 +377,9 @@ func procTrial(tr *ttrace, arr *arrivals, c scase, dir, bin string, shard int, u
 					continue
 				}
 				ok, d := quietRequest(arr, lv, fmt.Sprintf("%s-%s", prefix, n))
+				if !ok && lv.cl.Refused() {
+					continue // not a lost request: refused as retriable by a graceful GOAWAY; the connection is now marked as gone away
+				}
 				cmu.Lock()
 				tr.Emit(vh.Ev{"ev": "c.req", "kind": "long", "c": n, "k": lv.k, "ok": ok, "detail": d, "final": false})
 				cmu.Unlock()
